@@ -101,6 +101,7 @@ type CreateCase struct {
 	Key    string    `json:"key"`
 	Prev   int       `json:"prev"` // size of a previous value of the key (-1: none)
 	NoRoom bool      `json:"no_room,omitempty"`
+	Caps   []RootSpec `json:"caps,omitempty"` // root capacities installed after the previous value was stored
 }
 
 var (
